@@ -10,7 +10,7 @@ from ..cfg import own_exprs
 from ..facts import FactFlow, Fact, atoms, enumerate_paths
 from ..report import Ctx
 from .common import (
-    NotTabulable, OrderEval, always_before, decision_table, enclosing_stmt, expand, increment_of, guard, holds_with_callers, local_aliases, need, node_of, stmts_matching, xpath,
+    NotTabulable, OrderEval, always_before, decision_table, enclosing_stmt, expand, increment_of, guard, holds_with_callers, local_aliases, need, node_of, single_defs, stmts_matching, xpath,
 )
 
 SIM = "happysimulator/core/simulation.py"
@@ -770,6 +770,7 @@ def _counter_continues(ctx: Ctx, fn, set_call: ast.Call) -> tuple[bool, str]:
         return False, "FAILS: the re-basing `count(start)` is not evaluated on every path that installs the counter"
     # (2) + (3)
     for owner, start in starts:
+        start = expand(start, single_defs(owner))
         txt = unparse(start)
         if "_sort_index" in txt:
             continue
